@@ -139,4 +139,12 @@ theorem subsetSorted_sound : ∀ (xs ys : List String), subsetSorted xs ys = tru
         | tail _ hx' => exact List.mem_cons_of_mem _ (ih as h x hx')
       · exact List.mem_cons_of_mem _ (ih (a :: as) h x hx)
 
+/-! ### documented ⊆ exposed, per platform (one pass over the two sorted generated lists) -/
+
+def documentedOf (p : Platform) : List String := (Gen.C20.documented.lookup p.key).getD []
+def exposedOf (p : Platform) : List String := (Gen.C20.exposed.lookup p.key).getD []
+
+theorem api_subset_check : ∀ p ∈ Platform.all, subsetSorted (documentedOf p) (exposedOf p) = true := by
+  decide +kernel
+
 end Psutil.C20
